@@ -60,8 +60,9 @@ structure Cfg where
   batching : Bool
   /-- `ConnectReply.ReplyWithoutQueue` -/
   rwq : Bool
-  /-- SWITCH.  `false` = the code as it is: `writePublication`'s `pub.Offset == 0` branch performs
-  no `flagSubscribed` check.  `true` = the proposed fix (props/C10/proposed_fix.diff). -/
+  /-- SWITCH.  `true` = the code as it is since /repo commit 9c975f8e (= props/C10/proposed_fix.diff):
+  `writePublication`'s `pub.Offset == 0` branch checks `flagSubscribed`.  `false` = the code before
+  that commit (no check; finding C10-1, kept as a regression witness). -/
   offset0Checked : Bool
   /-- assumption switch: a subscribe attempt and an unsubscribe call for the channel never overlap -/
   serial : Bool
